@@ -24,7 +24,7 @@ func init() {
 			{Src: "engines/sync/harness.go.txt", Dst: "sync/zz_verif_sync_test.go", Pkg: "sync"},
 			{Src: "engines/sync/asm.go.txt", Dst: "sync/zz_verif_asm_test.go", Pkg: "sync"},
 		},
-		Instr: []instrSpec{{File: "sync/spinlock.go", Funcs: []string{"Spinlock.TryToAcquire", "Spinlock.Release", "Spinlock.Acquire"}, Hooks: "sync/zz_verif_hooks.go", Pkg: "sync"}},
+		Instr: []instrSpec{{File: "sync/spinlock.go", Funcs: nil, Hooks: "sync/zz_verif_hooks.go", Pkg: "sync"}},
 		Anchors: []string{"kernel/sync/spinlock.go", "kernel/sync/spinlock_amd64.s"},
 		Real:    []string{"sync.Spinlock.Acquire (compiled assembly archAcquireSpinlock, mode A)", "sync.Spinlock.TryToAcquire", "sync.Spinlock.Release", "the yieldFn seam", "spinlock_amd64.s source text interpreted instruction by instruction (mode B)"},
 		Stub:    []string{"CPUs = goroutine tasks holding a baton (mode A) / step tasks of an x86 subset interpreter (mode B)", "critical sections are harness code", "sequentially consistent memory (no store buffers)"},
@@ -84,9 +84,11 @@ func init() {
 		Name: "pmmc", PkgDir: "mm/pmm",
 		Files: append(append([]overlayFile(nil), pmmFiles...),
 			overlayFile{Src: "engines/pmm/conc.go.txt", Dst: "mm/pmm/zz_verif_conc_test.go", Pkg: "pmm"}),
-		Instr:   []instrSpec{{File: "mm/pmm/bitmap_allocator.go", Funcs: []string{"BitmapAllocator.AllocFrame", "BitmapAllocator.FreeFrame", "BitmapAllocator.markFrame", "BitmapAllocator.poolForFrame"}, Hooks: "mm/pmm/zz_verif_hooks.go", Pkg: "pmm"}},
+		Instr: []instrSpec{{File: "mm/pmm/bitmap_allocator.go", Funcs: []string{"BitmapAllocator.AllocFrame", "BitmapAllocator.FreeFrame", "BitmapAllocator.markFrame", "BitmapAllocator.poolForFrame"}, Hooks: "mm/pmm/zz_verif_hooks.go", Pkg: "pmm"},
+			// the Go part of the lock the allocator relies on, too: every function of spinlock.go
+			{File: "sync/spinlock.go", Funcs: nil, Hooks: "sync/zz_verif_hooks.go", Pkg: "sync"}},
 		Anchors: pmmAnchors,
-		Real:    append(append([]string(nil), pmmReal...), "bitmap_allocator.go rebuilt from the current tree with a yield before every statement of AllocFrame/FreeFrame/markFrame/poolForFrame", "contended acquirers reach the scheduler through the real assembly's call to yieldFn"),
+		Real:    append(append([]string(nil), pmmReal...), "bitmap_allocator.go rebuilt from the current tree with a yield before every statement of AllocFrame/FreeFrame/markFrame/poolForFrame", "sync/spinlock.go rebuilt with a yield before every statement of every function", "contended acquirers reach the scheduler through the real assembly's call to yieldFn"),
 		Stub:    append(append([]string(nil), pmmStub...), "CPUs = goroutine tasks holding a baton; one executes at a time"),
 	})
 	addProp(&propSpec{
